@@ -35,6 +35,9 @@ type NormalDistribution struct {
 /* -------------------------------------------------------------------------- */
 
 func NewNormalDistribution(mu, sigma Scalar) (*NormalDistribution, error) {
+  if math.IsNaN(mu.GetFloat64()) || math.IsNaN(sigma.GetFloat64()) {
+    return nil, fmt.Errorf("invalid parameters")
+  }
   if sigma.GetFloat64() <= 0.0 {
     return nil, fmt.Errorf("invalid parameters")
   }
